@@ -56,6 +56,7 @@ func c06Parse(path string) ([]*c06Event, error) {
 	defer f.Close()
 	var evs []*c06Event
 	nWrites := map[string]int{}
+	nFsyncs := map[string]int{}
 	pending := map[string]string{}
 	sc := bufio.NewScanner(f)
 	sc.Buffer(make([]byte, 1<<20), 1<<24)
@@ -79,6 +80,10 @@ func c06Parse(path string) ([]*c06Event, error) {
 		if ev.name == "write" {
 			nWrites[ev.pid]++
 			ev.ord = nWrites[ev.pid]
+		}
+		if ev.name == "fsync" {
+			nFsyncs[ev.pid]++
+			ev.ord = nFsyncs[ev.pid]
 		}
 		ev.ret, _ = strconv.ParseInt(m[4], 10, 64)
 		args := m[3]
@@ -104,7 +109,10 @@ func c06Parse(path string) ([]*c06Event, error) {
 				continue
 			}
 			ev.fd, _ = strconv.Atoi(fm[1])
-			if ev.ret < 0 {
+			if ev.ret < 0 && (ev.name == "fsync" || ev.name == "fdatasync") {
+				// a failed fsync: the kernel may have dropped the dirty pages
+				ev.name = "fsync-failed"
+			} else if ev.ret < 0 {
 				continue
 			}
 		case "rename", "renameat", "renameat2", "link", "linkat":
@@ -136,6 +144,9 @@ type c06Inode struct {
 	writer  int    // op index that created/truncated it (-1: before the workload)
 	len     int64
 	durable int64 // bytes known durable (prefix)
+	// an fsync of it failed: Linux reports the error once and marks the pages
+	// clean, so a later successful fsync proves nothing about data written before
+	poisoned bool
 }
 
 type c06DirOp struct {
@@ -260,8 +271,12 @@ func (m *c06Model) apply(ev *c06Event, root string) {
 				c06ApplyDirOp(d.durable, op)
 			}
 			d.pending = nil
-		} else {
+		} else if !in.poisoned {
 			in.durable = in.len
+		}
+	case "fsync-failed":
+		if ino, ok := m.fds[ev.fd]; ok && !m.inodes[ino].isDir {
+			m.inodes[ino].poisoned = true
 		}
 	case "sync", "syncfs":
 		m.makeAllDurable()
@@ -388,6 +403,8 @@ type c06Replay struct {
 	Seed     uint64         `json:"seed"`
 	Trace    int            `json:"trace_index"`
 	Inject   int            `json:"enospc_at_write,omitempty"`
+	InjectFsync int         `json:"eio_at_fsync,omitempty"`
+	UnsafeEnv   bool        `json:"snapd_unsafe_io_in_environment,omitempty"`
 	NOps     int            `json:"nops"`
 	CrashAt  int            `json:"crash_after_event"`
 	DirCh    map[string]int `json:"dir_ops_persisted"`
@@ -419,7 +436,22 @@ func c06BuildDriver(scratch string) string {
 // c06Trace runs the workload under strace. inject > 0 makes the inject-th
 // write system call of the process fail with ENOSPC (strace's syscall fault
 // injection): a full disk in the middle of an operation.
+// c06Fault is what goes wrong in one traced execution: the inject-th write of
+// the main thread fails with ENOSPC, or its injectFsync-th fsync fails with
+// EIO; unsafeEnv puts SNAPD_UNSAFE_IO=1 into the environment (it must be
+// ignored by a binary that is not a test binary).
+type c06Fault struct {
+	write     int
+	fsync     int
+	unsafeEnv bool
+}
+
 func c06Trace(bin, scratch string, seed uint64, idx, nops int, inject int) ([]*c06Event, string) {
+	return c06TraceFault(bin, scratch, seed, idx, nops, c06Fault{write: inject})
+}
+
+func c06TraceFault(bin, scratch string, seed uint64, idx, nops int, fault c06Fault) ([]*c06Event, string) {
+	inject := fault.write
 	root := filepath.Join(scratch, fmt.Sprintf("root%d", idx))
 	os.RemoveAll(root)
 	os.MkdirAll(root, 0755)
@@ -428,6 +460,9 @@ func c06Trace(bin, scratch string, seed uint64, idx, nops int, inject int) ([]*c
 		"-e", "trace=openat,open,creat,write,pwrite64,fsync,fdatasync,rename,renameat,renameat2,unlink,unlinkat,close,ftruncate,faccessat,faccessat2,access,link,linkat,sync,syncfs"}
 	if inject > 0 {
 		args = append(args, "-e", fmt.Sprintf("inject=write:error=ENOSPC:when=%d", inject))
+	}
+	if fault.fsync > 0 {
+		args = append(args, "-e", fmt.Sprintf("inject=fsync:error=EIO:when=%d", fault.fsync))
 	}
 	args = append(args, "-o", tr, bin, root, strconv.FormatUint(seed*1000+uint64(idx), 10), strconv.Itoa(nops))
 	cmd := exec.Command("strace", args...)
@@ -439,6 +474,9 @@ func c06Trace(bin, scratch string, seed uint64, idx, nops int, inject int) ([]*c
 		env = append(env, kv)
 	}
 	cmd.Env = append(env, "GOMAXPROCS=1", "SNAPD_DEBUG=0")
+	if fault.unsafeEnv {
+		cmd.Env = append(cmd.Env, "SNAPD_UNSAFE_IO=1")
+	}
 	out, err := cmd.CombinedOutput()
 	if err != nil {
 		fmt.Fprintf(os.Stderr, "%s\n", out)
@@ -480,11 +518,16 @@ func c06Explore(evs []*c06Event, root string, seed uint64, traceIdx, nops int, s
 				n, _ := strconv.ParseInt(p[3], 10, 64)
 				m.finalLen[i] = n
 			}
-			if len(p) == 3 && p[0] == "op" && p[2] == "failed" {
-				// the operation reported an error: nothing it wrote is a complete version
+			if len(p) >= 3 && p[0] == "op" && p[2] == "failed" {
+				// the operation reported an error: what it wrote is a complete version
+				// only if all of the intended content got there (an error after the
+				// rename, e.g. from the directory fsync, leaves the new version in place)
 				i, _ := strconv.Atoi(p[1])
 				m.finalLen[i] = -1
-				st.faults["operation-failed-with-enospc"]++
+				if len(p) == 4 {
+					m.finalLen[i], _ = strconv.ParseInt(p[3], 10, 64)
+				}
+				st.faults["operation-reported-an-error"]++
 			}
 		}
 	}
@@ -513,7 +556,7 @@ func c06Explore(evs []*c06Event, root string, seed uint64, traceIdx, nops int, s
 				m.curOp, _ = strconv.Atoi(p[1])
 				opStartEvent = ev.idx
 				st.opKinds[p[3]]++
-			case len(p) == 4 && p[0] == "op" && p[2] == "end", len(p) == 3 && p[0] == "op" && p[2] == "failed":
+			case len(p) == 4 && p[0] == "op" && p[2] == "end", len(p) >= 3 && p[0] == "op" && p[2] == "failed":
 				m.curOp = -2
 			}
 			continue
@@ -741,7 +784,7 @@ func runC06(s *spec, tier string, seed uint64, scratch string) int {
 		if err := json.Unmarshal(b, &rp); err != nil {
 			die(2, "%v", err)
 		}
-		evs, root := c06Trace(bin, scratch, rp.Seed, rp.Trace, rp.NOps, rp.Inject)
+		evs, root := c06TraceFault(bin, scratch, rp.Seed, rp.Trace, rp.NOps, c06Fault{write: rp.Inject, fsync: rp.InjectFsync, unsafeEnv: rp.UnsafeEnv})
 		st := &c06Stats{fps: map[string]struct{}{}, faults: map[string]int64{}, opKinds: map[string]int64{}}
 		found := c06Explore(evs, root, rp.Seed, rp.Trace, rp.NOps, st, &rp, 1)
 		for _, f := range found {
@@ -804,6 +847,51 @@ func runC06(s *spec, tier string, seed uint64, scratch string) int {
 				st.faults["enospc-injected-traces"]++
 				os.RemoveAll(root2)
 			}
+		}
+		// another third is run again with an fsync of the operation failing (EIO)
+		if i%3 == 1 {
+			var fs []int
+			started := false
+			mainThread := ""
+			for _, ev := range evs {
+				if ev.name == "marker" && ev.path == "start" {
+					started = true
+					mainThread = ev.pid
+				}
+				if ev.name == "fsync" && started && ev.pid == mainThread {
+					fs = append(fs, ev.ord)
+				}
+			}
+			if len(fs) > 0 {
+				k := fs[int((seed*37+uint64(i)*11)%uint64(len(fs)))]
+				evs2, root2 := c06TraceFault(bin, scratch, seed, i, nops, c06Fault{fsync: k})
+				found2 := c06Explore(evs2, root2, seed, i, nops, st, nil, limit)
+				for _, f := range found2 {
+					f.InjectFsync = k
+				}
+				all = append(all, found2...)
+				st.traces++
+				st.faults["fsync-eio-injected-traces"]++
+				for _, ev := range evs2 {
+					if ev.name == "fsync-failed" {
+						st.faults["fsync-eio-seen-by-the-workload"]++
+					}
+				}
+				os.RemoveAll(root2)
+			}
+		}
+		// and the last third with SNAPD_UNSAFE_IO=1 in the environment, which only
+		// test binaries may honour
+		if i%3 == 2 {
+			evs2, root2 := c06TraceFault(bin, scratch, seed, i, nops, c06Fault{unsafeEnv: true})
+			found2 := c06Explore(evs2, root2, seed, i, nops, st, nil, limit)
+			for _, f := range found2 {
+				f.UnsafeEnv = true
+			}
+			all = append(all, found2...)
+			st.traces++
+			st.faults["unsafe-io-variable-in-environment-traces"]++
+			os.RemoveAll(root2)
 		}
 		if len(all) > 0 && i >= 1 {
 			break
